@@ -244,6 +244,17 @@ fn permute_text(t: &str, how: usize) -> String {
 fn annual_diff(a: &EnergyPerformance, b: &EnergyPerformance) -> Option<String> {
     leaf::diff(&leaf::results(a, true), &leaf::results(b, true), 1.0)
 }
+/// the same components with every energy value multiplied by c (system ids, tags and metadata untouched)
+fn scale_text(t: &str, c: f32) -> String {
+    t.lines().map(|l| {
+        if l.trim_start().starts_with('#') { return l.to_string(); }
+        let f: Vec<&str> = l.split(',').collect();
+        let mut first_val = f.len();
+        while first_val > 0 && f[first_val - 1].trim().parse::<f32>().is_ok() { first_val -= 1; }
+        if first_val == 0 && f.len() > 1 { first_val = 1; }
+        f[..first_val].iter().map(|x| x.to_string()).chain(f[first_val..].iter().map(|x| format!("{}", x.trim().parse::<f32>().unwrap_or(0.0) * c))).collect::<Vec<_>>().join(",")
+    }).collect::<Vec<_>>().join("\n")
+}
 fn sig_eq(a: &[f32], b: &[f32]) -> Option<usize> {
     // entry 14 is RER, reported as 0.0 by annual_sig when its denominator is within rounding noise on that side: compared only when meaningful on both
     a.iter().zip(b).enumerate().position(|(i, (x, y))| !(i == 14 && (*x == 0.0 || *y == 0.0)) && !eq(*x, *y))
@@ -265,7 +276,7 @@ pub fn check(pid: &str, seed: u64) -> Value {
         let mut rep = crate::preds2::Rep { evals: 0, nontrivial: 0, failures: vec![], samples: vec![] };
         let (domain, rule) = match pid {
             "C02" => { crate::preds2::c02(&mut rep, seed); ("the hand-written buildings, the seeded buildings over the whole vocabulary of the format (60 quick / 600 thorough), every seventh enumerated single-step building and the multi-step ones x the four regulatory factor sets and two user files whose step A/B, grid / non-EPB destination and per-source factors all differ (every set for the first 20 buildings, two of the six in turn for the others) x k_exp in {0, 0.3, 1} x both load-matching modes x area 1 or 37.5; compared: every per-carrier, per-service, per-source and whole-building figure, per step and per period, and RER, against an independent f64 evaluation of the equations (replay/src/refimpl.rs)", "an evaluation is non-trivial when the crate returns a result") }
-            "C05" => { crate::preds2::c05(&mut rep); crate::preds2::c05_special(&mut rep); crate::preds2::c05_outputs(&mut rep); ("EAMBIENTE / TERMOSOLAR x two systems with ids from {-1,0,1} (also the same id twice) x use in {0, 2, (3,1)} x declared production in {none, 1, 5, (0,4)} x one use, two EPB uses, or an EPB and a non-EPB use per system; 2 steps; + hand-written files (interleaved systems, repeated demand lines, declared production carrying the comment of the automatic completion, outputs of either sign and of negative-id systems)", "every generated file has ambient / solar components") }
+            "C05" => { crate::preds2::c05(&mut rep); crate::preds2::c05_special(&mut rep); crate::preds2::c05_outputs(&mut rep); crate::preds2::c05_idempotent(&mut rep, seed); ("EAMBIENTE / TERMOSOLAR x two systems with ids from {-1,0,1} (also the same id twice) x use in {0, 2, (3,1)} x declared production in {none, 1, 5, (0,4)} x one use, two EPB uses, or an EPB and a non-EPB use per system; 2 steps; + hand-written files (interleaved systems, repeated demand lines, declared production carrying the comment of the automatic completion, outputs of either sign and of negative-id systems)", "every generated file has ambient / solar components") }
             "C06" => { crate::preds2::c06(&mut rep); crate::preds2::c06_special(&mut rep); ("system 1 with services {CAL},{CAL,ACS},{CAL,REF},{CAL,ACS,REF} x outputs from {30,10,-10,(30,0),(10,0),(0,20)} x AUX in {4,(4,2),(0,3)} x with/without a second single-service system with AUX x electricity otherwise present or absent; + hand-written systems (several AUX lines, negative system ids, cogeneration-only systems)", "multi-service systems are the non-trivial cases") }
             "C16" => { crate::preds2::c16(&mut rep, seed); ("the repository's test_data component files, the special buildings of the other predicates, 21 hand-written edge shapes (AUX without consumption, DHW demand with biomass and PV, empty / short / non-numeric / non-finite fields, different lengths) and 60 seeded token- or line-level corruptions (drop, duplicate, swap, replace) of each of the first 20 files; each parsed, evaluated with the full and the stripped factor set in both load-matching modes and passed to the DHW renewable fraction, under catch_unwind; + long lines of unknown kind with multi-byte text at every byte offset 45..115, metadata accessors, value parsers and corrupted factor files", "an input is non-trivial when it parses and at least one evaluation succeeds") }
             "C10" => { crate::preds2::c10(&mut rep, seed); ("7 base files (every figure of the serialized result compared by path) x {6 random line orders, comments/blank/header/BOM/whitespace and their combinations, ids renumbered, id 0 omitted, one component split in two lines} + 60 repeated evaluations each", "every rewriting is non-trivial") }
@@ -355,6 +366,21 @@ pub fn check(pid: &str, seed: u64) -> Value {
                     evals += 1;
                     if let Ok(e0) = run(&tcase(t, 0.5, 2.0, lm)) {
                         nontrivial += 1;
+                        // every energy multiplied by c: every figure of the result scales, shares and matching factors stay
+                        for c in [1024.0f32, 1.0 / 64.0] {
+                            evals += 1;
+                            if let Ok(e) = run(&tcase(&scale_text(t, c), 0.5, 2.0, lm)) {
+                                let unit = |p: &String| p.starts_with("rer") || p.contains(".f_match[");
+                                let (l0, l1) = (leaf::results(&e0, false), leaf::results(&e, false));
+                                let pick = |l: &leaf::Leaves, u: bool| -> leaf::Leaves { l.iter().filter(|(p, _)| unit(p) == u).map(|(p, v)| (p.clone(), *v)).collect() };
+                                // renewable shares only where they are well conditioned on both sides
+                                let well = |e: &EnergyPerformance| { let b = e.balance.we.b; (b.ren + b.nren) > 0.05 * (b.ren.abs() + b.nren.abs()) };
+                                let units_differ = if well(&e0) && well(&e) { leaf::diff(&pick(&l0, true), &pick(&l1, true), 1.0) } else { None };
+                                if let Some(d) = leaf::diff(&pick(&l0, false), &pick(&l1, false), c as f64).or(units_differ) {
+                                    failures.push(json!({"clause": "C11", "components": t, "load_matching": lm, "what": format!("multiplying every energy by {}: {}", c, d)}));
+                                }
+                            }
+                        }
                         for c in [0.5f32, 8.0, 100.0] {
                             evals += 1;
                             if let Ok(e) = run(&tcase(t, 0.5, 2.0 * c, lm)) {
@@ -401,7 +427,7 @@ pub fn check(pid: &str, seed: u64) -> Value {
                 col(n, &|i| scale * (36.0 + (idx(i) % 5) as f32)), col(n, &|i| scale * (8.0 + (idx(i) % 3) as f32)), col(n, &|i| scale * (20.0 + (idx(i) % 4) as f32)), col(n, &|i| scale * ((idx(i) % 7) as f32 * 3.0)), col(n, &|i| scale * 1.5))
         };
         for lm in [false, true] {
-            for (name, base, var) in [("30 steps rotated by 7", build(30, 1.0, 0, 1), build(30, 1.0, 7, 1)), ("13 steps, each split in 4", build(13, 1.0, 0, 1), build(52, 0.25, 0, 4)), ("13 steps, each split in 3", build(13, 1.0, 0, 1), build(39, 1.0 / 3.0, 0, 3))] {
+            for (name, base, var) in [("365 daily steps, each split in 24 (8760 hourly steps)", build(365, 1.0, 0, 1), build(8760, 1.0 / 24.0, 0, 24)), ("30 steps rotated by 7", build(30, 1.0, 0, 1), build(30, 1.0, 7, 1)), ("13 steps, each split in 4", build(13, 1.0, 0, 1), build(52, 0.25, 0, 4)), ("13 steps, each split in 3", build(13, 1.0, 0, 1), build(39, 1.0 / 3.0, 0, 3))] {
                 evals += 2;
                 if let (Ok(a), Ok(b)) = (run(&tcase(&base, 0.5, 1.0, lm)), run(&tcase(&var, 0.5, 1.0, lm))) {
                     nontrivial += 1;
